@@ -10,7 +10,7 @@ extern int next_backend_desc __attribute__((weak));
 }
 
 static bool refused(const std::string &api, long rc) {
-    if (api == "is_invalid_fragment") return rc == 1;
+    if (api == "is_invalid_fragment") return rc != 0;   // documented failure value is 1; any non-zero verdict is a refusal
     if (api == "backend_available") return rc == 0;
     return rc < 0;
 }
